@@ -54,7 +54,7 @@ func c06Sizes(tier fw.Tier) []int {
 		sizes = append(sizes, s.Count())
 	}
 	sizes = append(sizes, len(c06Alphabet)*3+len(c06HandCases)) // long-line family + hand-picked deep cases
-	sizes = append(sizes, c06EvCount(tier))                      // valid documents shaped for the evaluation commands
+	sizes = append(sizes, c06EvCount(tier))                     // valid documents shaped for the evaluation commands
 	return sizes
 }
 
